@@ -17,7 +17,8 @@ type runCfg struct {
 	L       lockerCfg `json:"locker"`
 	NT      int       `json:"threads"`
 	Ordered bool      `json:"ordered"`
-	Long    bool      `json:"long,omitempty"` // generator class long-lists (longlists.go)
+	Long    bool      `json:"long,omitempty"`  // generator class long-lists (longlists.go)
+	First   bool      `json:"first,omitempty"` // generator class first-touch (firsttouch.go)
 }
 
 type replayT struct {
@@ -38,6 +39,7 @@ var allKinds = []lockerCfg{
 }
 
 var shardChoices = []int{1, 2, 3, 73}
+var bigPrimes = []int{251, 257, 509, 1021, 1031, 4099}
 
 func genCfg(rnd *rand.Rand, focus string) runCfg {
 	var lc lockerCfg
@@ -53,9 +55,37 @@ func genCfg(rnd *rand.Rand, focus string) runCfg {
 	}
 	if strings.HasSuffix(lc.Kind, "Grp") {
 		lc.Shards = shardChoices[rnd.Intn(len(shardChoices))]
+		// shard-count boundaries (index width, eager/lazy slot tables): some universes on bigger primes, a few on huge ones
+		switch r := rnd.Intn(100); {
+		case r < 16:
+			lc.Shards = bigPrimes[rnd.Intn(len(bigPrimes))]
+		case r < 18:
+			lc.Shards = 65537
+		}
 	}
 	nk := 2 + rnd.Intn(4)
 	seen := map[int]bool{}
+	if lc.Shards > 255 {
+		// keys whose shard number is high (>= 256, >= 1024 when the prime allows): exact under modulo routing of ints,
+		// by chance (most of the range) under xxhash
+		for len(lc.Seeds) < nk {
+			lo := 256
+			if lc.Shards > 1100 && rnd.Intn(2) == 0 {
+				lo = 1024
+			}
+			s := lo + rnd.Intn(lc.Shards-lo) + lc.Shards*rnd.Intn(50)
+			if lc.KeyTy == "mixed" {
+				s = 3 * (s / 3) // mixedKey: multiples of 3 are ints, routed by value under modulo
+				if s%lc.Shards < 256 {
+					continue
+				}
+			}
+			if !seen[s] {
+				seen[s] = true
+				lc.Seeds = append(lc.Seeds, s)
+			}
+		}
+	}
 	if strings.HasPrefix(lc.Kind, "T") {
 		lc.Reuse = rnd.Intn(4) != 0
 	}
@@ -279,6 +309,9 @@ func liveAfter(rounds []roundT) int {
 }
 
 func classOf(c runCfg) string {
+	if c.First {
+		return c.L.class() + "/first-touch"
+	}
 	if c.Long {
 		return c.L.class() + "/long-lists"
 	}
@@ -358,6 +391,12 @@ func main() {
 			nl = 0
 			e.Meta["cut_short"] = "stopped generating after 25 ordered schedules that ended in an anomaly or deadlock"
 		}
+		if divergent < divergentCap {
+			fr, fm := runFirstTouch(e, e.Scale(30, 120))
+			rounds += fr
+			mismatches += fm
+		}
+		e.Meta["entries_hook_faults"] = entriesHookFaults
 		lr, lm, ld := runLongLists(e, nl)
 		rounds += lr
 		mismatches += lm
